@@ -60,3 +60,23 @@ func (r *Rand) Sub() *Rand { return NewRand(r.Uint64()) }
 
 // Pick2 returns one of the ints.
 func (r *Rand) Pick2(xs ...int) int { return xs[r.Intn(len(xs))] }
+
+// HashStrings returns a short stable hash of a list of strings.
+func HashStrings(ss []string) string {
+	var h uint64 = 1469598103934665603
+	for _, s := range ss {
+		for i := 0; i < len(s); i++ {
+			h ^= uint64(s[i])
+			h *= 1099511628211
+		}
+		h ^= 0xff
+		h *= 1099511628211
+	}
+	const hexd = "0123456789abcdef"
+	b := make([]byte, 16)
+	for i := 15; i >= 0; i-- {
+		b[i] = hexd[h&15]
+		h >>= 4
+	}
+	return string(b)
+}
